@@ -5,6 +5,7 @@ mod apache;
 mod codecloop;
 mod container;
 mod decblock;
+mod discard;
 mod dtarget;
 mod io;
 mod rt_fixed;
@@ -222,6 +223,64 @@ fn cmd_de(a: &[Sx]) -> Result<String, String> {
 	})
 }
 
+/// dem SCHEMA TARGET xBYTES MODE CFG COUNT: up to COUNT successive datums decoded through ONE DeserializerState
+/// (`state.deserializer()` called again for every datum, the way a stream of datums is read); stops at the first error.
+/// -> (ok (ok DVAL)... [(err KIND xMSG)] REST)
+fn cmd_dem(a: &[Sx]) -> Result<String, String> {
+	let schema = get_schema(&a[0])?;
+	let target = DTarget::from_sx(&a[1])?;
+	let bytes = a[2].bytes()?;
+	let (cfg, max_alloc) = de_cfg(&schema, a.get(4))?;
+	let count: usize = a[5].int()?;
+	let (mh, ma) = a[3].head()?;
+	use serde::de::DeserializeSeed;
+	let mut out = String::from("(ok");
+	let fmt1 = |res: Result<DVal, serde_avro_fast::de::DeError>| -> (String, bool) {
+		match res {
+			Ok(d) => (format!(" (ok {d})"), true),
+			Err(e) => (format!(" (err {} {})", if e.io_error().is_some() { "io" } else { "data" }, esc(&e.to_string())), false),
+		}
+	};
+	match mh {
+		"slice" => {
+			dtarget::INPUT.with(|c| c.set((bytes.as_ptr() as usize, bytes.len())));
+			let mut st = serde_avro_fast::de::DeserializerState::with_config(serde_avro_fast::de::read::SliceRead::new(&bytes), cfg);
+			for _ in 0..count {
+				let (s, ok) = fmt1((&target).deserialize(st.deserializer()));
+				out.push_str(&s);
+				if !ok {
+					break;
+				}
+			}
+			let mut reader = st.into_reader();
+			let mut rest = Vec::new();
+			std::io::Read::read_to_end(&mut reader, &mut rest).unwrap();
+			dtarget::INPUT.with(|c| c.set((0, 0)));
+			out.push_str(&format!(" {})", rest.len()));
+		}
+		"chunks" => {
+			let plan = ma.iter().map(|s| s.int::<usize>()).collect::<Result<Vec<_>, _>>()?;
+			let r = io::ChunkedReader::new(bytes.clone(), plan);
+			let mut rr = serde_avro_fast::de::read::ReaderRead::new(r);
+			if let Some(m) = max_alloc {
+				rr.max_alloc_size = m;
+			}
+			let mut st = serde_avro_fast::de::DeserializerState::with_config(rr, cfg);
+			for _ in 0..count {
+				let (s, ok) = fmt1((&target).deserialize(st.deserializer()));
+				out.push_str(&s);
+				if !ok {
+					break;
+				}
+			}
+			let reader = st.into_reader().into_inner();
+			out.push_str(&format!(" {})", reader.remaining()));
+		}
+		other => return Err(format!("unknown mode {other}")),
+	}
+	Ok(out)
+}
+
 /// hist SCHEMA SLOW (job SVAL BUDGET|none)... : consecutive to_datum calls sharing one SerializerConfig;
 /// each job has its own sink, which fails after BUDGET bytes
 fn cmd_hist(a: &[Sx]) -> Result<String, String> {
@@ -325,8 +384,25 @@ fn cmd_dealloc(a: &[Sx]) -> Result<String, String> {
 	let bytes = a[1].bytes()?;
 	let (cfg, max_alloc) = de_cfg(&schema, a.get(3))?;
 	let (mh, ma) = a[2].head()?;
+	// optional 5th argument: a target driven by the NON-ALLOCATING discarding consumer (discard.rs) instead of IgnoredAny
+	let target = match a.get(4) {
+		Some(t) => Some(DTarget::from_sx(t)?),
+		None => None,
+	};
 	ALLOCS.with(|c| c.set((0, 0)));
 	let out = match mh {
+		"slice" if target.is_some() => {
+			use serde::de::DeserializeSeed;
+			let t = target.as_ref().unwrap();
+			let mut st = serde_avro_fast::de::DeserializerState::with_config(serde_avro_fast::de::read::SliceRead::new(&bytes), cfg);
+			COUNTING.with(|c| c.set(true));
+			let res = discard::Discard(t).deserialize(st.deserializer());
+			COUNTING.with(|c| c.set(false));
+			let mut reader = st.into_reader();
+			let mut rest = Vec::new();
+			std::io::Read::read_to_end(&mut reader, &mut rest).unwrap();
+			(res.is_ok(), rest.len())
+		}
 		"slice" => {
 			let mut st = serde_avro_fast::de::DeserializerState::with_config(serde_avro_fast::de::read::SliceRead::new(&bytes), cfg);
 			COUNTING.with(|c| c.set(true));
@@ -554,6 +630,7 @@ fn run_case(line: &str) -> String {
 	let r = std::panic::catch_unwind(std::panic::AssertUnwindSafe(|| match cmd.as_str() {
 		"ser" => cmd_ser(args),
 		"de" => cmd_de(args),
+		"dem" => cmd_dem(args),
 		"fp" => cmd_fp(args),
 		"parse" => cmd_parse(args),
 		"jsonread" => cmd_jsonread(args),
